@@ -2,7 +2,7 @@
     ListingNav.v and followed by Print Assumptions. *)
 From Coq Require Import Ascii String List Bool ZArith NArith.
 From PTBase Require Import Exn PyStr.
-From P Require Import ListingNav Round NavMore.
+From P Require Import ListingNav Round NavMore Uniform Table.
 Import ListNotations.
 Open Scope Z_scope.
 
@@ -186,3 +186,72 @@ Theorem set_time_exact_hit_float64 : forall L s t j, sorted_lt (times L) -> nth_
   exists s', step round53 L s (SetTime t) = (s', ONone) /\ idx s' = Z.of_nat j.
 Proof. exact set_time_exact_round53. Qed.
 Print Assumptions set_time_exact_hit_float64.
+
+(** ---- round 4: uniformity from the structure of the file; the table access paths; the dtype assumption ---- *)
+
+(** The repaired reader (a table in skip_tables or absent at the first time is passed over, a known one is
+    read in full) over the printed-table abstraction of a file: if every result set prints every table the
+    first one prints (any order, extra tables allowed, same number of cells) -- a decidable condition --
+    the abstracted listing is uniform ... *)
+Theorem structural_condition_implies_uniform : forall P, struct_okb P = true -> uniform (abstract P).
+Proof. exact struct_ok_uniform. Qed.
+Print Assumptions structural_condition_implies_uniform.
+(** ... hence after ANY navigation it shows what a fresh listing at that index shows *)
+Theorem nav_state_is_fresh_if_structurally_uniform : forall rnd P, psets P <> [] -> struct_okb P = true -> forall ops,
+  let L := abstract P in let s := run rnd L (open L) ops in
+  exists f, fresh_at L (idx s) = (f, ONone) /\ observe s = observe f.
+Proof. exact nav_fresh_structural. Qed.
+Print Assumptions nav_state_is_fresh_if_structurally_uniform.
+(** the condition is not idle: a file whose third result set lacks a table of the first one fails it, its
+    abstraction is not uniform and two routes to that result set show different tables *)
+Theorem structural_condition_needed : struct_okb P_missing = false /\ ~ uniform (abstract P_missing) /\
+  exists ops, let L := abstract P_missing in let s := run (fun z => z) L (open L) ops in
+              observe s <> observe (fst (fresh_at L (idx s))).
+Proof. exact struct_needed. Qed.
+Print Assumptions structural_condition_needed.
+
+(** listingtable: a read changes nothing; the table after any interleaving of reads and writes is the table
+    after the writes alone; so the answer to a read is [lookup] on the current array whatever was read before
+    (no hidden per-key state) *)
+Theorem table_reads_are_irrelevant : forall ops t, trun t ops = trun t (filter is_set ops).
+Proof. exact reads_are_irrelevant. Qed.
+Print Assumptions table_reads_are_irrelevant.
+Theorem table_answer_is_lookup_of_current_data : forall ops t k,
+  snd (tstep (trun t ops) (TGet k)) = lookup (trun t (filter is_set ops)) k.
+Proof. exact answer_is_lookup_of_current_data. Qed.
+Print Assumptions table_answer_is_lookup_of_current_data.
+Theorem table_lookup_is_function_of_data : forall t1 t2 k, tcols t1 = tcols t2 -> trows t1 = trows t2 -> trev t1 = trev t2 ->
+  tdata t1 = tdata t2 -> lookup t1 k = lookup t2 k.
+Proof. exact lookup_function_of_data. Qed.
+Print Assumptions table_lookup_is_function_of_data.
+(** the access paths agree with each other: reversed key = the row under the reversed name, name turned round,
+    values negated; row name = the row at the last index filed under it = table[that index]; a written row is read back *)
+Theorem table_reversed_key_negates : forall t k ri, last_index k (tcols t) = None -> last_index k (trows t) = None ->
+  (1 < length k)%nat -> trev t = true -> last_index (rev k) (trows t) = Some ri ->
+  lookup t (KName k) = neg_rev (row_at t ri).
+Proof. exact lookup_reversed_negates. Qed.
+Print Assumptions table_reversed_key_negates.
+Theorem table_name_is_row_at_last_index : forall t k ri, last_index k (tcols t) = None -> last_index k (trows t) = Some ri ->
+  length (tdata t) = length (trows t) ->
+  lookup t (KName k) = row_at t ri /\ lookup t (KInt (Z.of_nat ri)) = row_at t ri.
+Proof. exact lookup_name_is_row_at_last_index. Qed.
+Print Assumptions table_name_is_row_at_last_index.
+Theorem table_write_then_read : forall t i vals n, 0 <= i < Z.of_nat (length (tdata t)) -> length (tdata t) = length (trows t) ->
+  nth_error (trows t) (Z.to_nat i) = Some n ->
+  exists t', tstep t (TPut (KInt i) vals) = (t', TOk) /\ lookup t' (KInt i) = TRow n vals.
+Proof. exact write_then_read. Qed.
+Print Assumptions table_write_then_read.
+(** equal observed arrays give equal answers on every table through every access path *)
+Theorem table_views_follow_arrays : forall meta a b, a = b ->
+  forall j k, option_map (fun t => lookup t k) (nth_error (tables_of_state meta a) j) =
+              option_map (fun t => lookup t k) (nth_error (tables_of_state meta b) j).
+Proof. exact views_follow_arrays. Qed.
+Print Assumptions table_views_follow_arrays.
+
+(** the signed-integer assumption behind set_step_nearest cannot be dropped: with an unsigned 32-bit steps
+    array the difference wraps and the arg-min is not the nearest result set *)
+Theorem set_step_unsigned_wrap_refuted : exists vals v x xi,
+  sorted_lt vals /\ In x vals /\
+  nth_error vals (argmin (map (fun y => (y - v) mod 2 ^ 32) vals)) = Some xi /\ Z.abs (x - v) < Z.abs (xi - v).
+Proof. exact nearest_unsigned_wrap_refuted. Qed.
+Print Assumptions set_step_unsigned_wrap_refuted.
